@@ -79,9 +79,13 @@ func main() {
 	known := flag.String("known", "/verif/known_findings.json", "known findings file")
 	seed := flag.Int64("seed", 0, "seed")
 	verbose := flag.Bool("v", false, "verbose")
+	params := flag.String("params", "", "harness parameters k=v,k=v (vpParam)")
 	replayModel := flag.String("replay-model", "", "JSON file with {inputs:[...]}: run the harness concretely on this model")
 	flag.Parse()
 
+	for _, f := range lateInits {
+		f()
+	}
 	t0 := time.Now()
 	ov, err := buildOverlay(*repo, *hdir)
 	if err != nil {
@@ -99,6 +103,14 @@ func main() {
 		MaxPaths: *maxPaths, Workers: *workers, SolverArgv: strings.Fields(*solver), TimeoutS: *timeout, Verbose: *verbose,
 		ModelSamples: *models, Seed: *seed}
 	E.openFindings = loadKnown(*known)
+	E.params = map[string]int64{}
+	for _, kv := range strings.Split(*params, ",") {
+		if i := strings.Index(kv, "="); i > 0 {
+			var n int64
+			fmt.Sscan(kv[i+1:], &n)
+			E.params[strings.TrimSpace(kv[:i])] = n
+		}
+	}
 	if *replayModel != "" {
 		b, err := os.ReadFile(*replayModel)
 		if err != nil {
